@@ -48,15 +48,15 @@ def main():
                 if ref is None:
                     ref = d
                     runs = [l for l in d if " dist:" not in l]
-                    if len(runs) != n:
-                        print(f"{cid} seed={seed}: expected {n} run digests, got {len(runs)}")
+                    if len(runs) < n:         # more than n when the check lists extra run indexes (DIGEST_EXTRA)
+                        print(f"{cid} seed={seed}: expected at least {n} run digests, got {len(runs)}")
                         bad += 1
                 elif d != ref:
                     diff = [(x, y) for x, y in zip(ref, d) if x != y][:3]
                     print(f"DIVERGENCE {cid} seed={seed} hashseed={hs} workers={w}: {diff}")
                     bad += 1
             nd = len([l for l in ref if " dist:" in l])
-            print(f"{cid} seed={seed}: {n} runs + {nd} distribution batches x {len(CONFIGS)} configurations "
+            print(f"{cid} seed={seed}: {len(ref) - nd} runs + {nd} distribution batches x {len(CONFIGS)} configurations "
                   f"{'identical' if not bad else 'see above'}", flush=True)
     print(f"determinism: {total} run digests compared, {bad} divergence(s)")
     return 1 if bad else 0
